@@ -84,7 +84,8 @@ func (fr *Frame) appendSlices(a, bb Val, typ types.Type) Val {
 	if n, ok := fc.B.inst2["append|"+t]; ok {
 		return Val{S: a.S, T: n, Typ: typ}
 	}
-	n := fc.B.Define("appended", a.S, t)
+	n := fc.B.Fresh("appended", a.S)
+	fc.B.Assert(eq(n, t))
 	fc.B.inst2["append|"+t] = n
 	la, lb := "(s_len "+a.T+")", "(s_len "+bb.T+")"
 	fc.B.Assert(and(eq("(s_len "+n+")", "(+ "+la+" "+lb+")"),
